@@ -53,7 +53,7 @@ def c08_name_nested(a: str, b: str) -> bool:
     """
     Two arguments, the first one itself templated: names are concatenated in order, each part capitalised
     at its own first letter only (`Tmpl` + `A` + inner `B` + second).
-    pre: is_ident(a, 1, LN2) and is_ident(b, 1, LN2)
+    pre: is_ident(a, 1, LN2) and is_ident(b, 1, LN2 - 1)
     pre: not (kf_open('C08-capitalise') and (a[0] in a[1:] or a[0] in b or b[0] in b[1:]))
     post: _
     """
